@@ -4,6 +4,7 @@
 package engine
 
 import (
+	"context"
 	"crypto/sha1"
 	"encoding/hex"
 	"encoding/json"
@@ -660,7 +661,16 @@ func (c *Ctx) JobsW(name string, n int, workersPerJob int, body func(job int)) {
 				stderr.Reset()
 				stdout.Reset()
 				os.Remove(pf)
-				cmd := exec.Command(os.Args[0], os.Args[1:]...)
+				// no worker runs for ever: thirty minutes in the quick tier (its
+				// workers need a minute at most on the unchanged tree), eight hours in
+				// the thorough one
+				limit := 30 * time.Minute
+				if c.Thorough() {
+					limit = 8 * time.Hour
+				}
+				jobCtx, cancel := context.WithTimeout(context.Background(), limit)
+				cmd := exec.CommandContext(jobCtx, os.Args[0], os.Args[1:]...)
+				defer cancel()
 				cmd.Env = append(os.Environ(), fmt.Sprintf("VERIF_JOB=%s:%d", name, j), "VERIF_PARTIAL="+pf,
 					fmt.Sprintf("VERIF_WORKERS=%d", workersPerJob), fmt.Sprintf("GOMAXPROCS=%d", workersPerJob+1), "VERIF_CPUPROFILE=")
 				cmd.Stderr = &stderr
@@ -668,6 +678,13 @@ func (c *Ctx) JobsW(name string, n int, workersPerJob int, body func(job int)) {
 				err = cmd.Run()
 				if err == nil {
 					break
+				}
+				if jobCtx.Err() != nil {
+					mergeMu.Lock()
+					c.Violation("fatal:"+name+":no-end", map[string]interface{}{"kind": "job", "jobs": name, "job": j,
+						"what": fmt.Sprintf("worker %s:%d had not come to an end after %v and was stopped (on the unchanged tree it needs a minute at most)", name, j, limit)})
+					mergeMu.Unlock()
+					return
 				}
 				// a worker that could not be started, or could not get a thread
 				// (process table full, out of descriptors), says nothing about
